@@ -807,12 +807,12 @@ theorem finishTsig_tail (s : State) (hw : WInv s) (hl : PtrLogOK s) (ts : Tsig) 
       unwrap (addRr .none ts.rr.keyName T_TSIG QC_ANY (ttlFrom 0)
         (tsigRdata ts.rr (tsigAlgName ts.mode) (mac.getD [])))
       let len ← M.gets (·.cursor)
-      pure (len, mac) : M (Nat × Option (List UInt8))) s = (.ok (len, mac), s') := by
+      pure (len, mac) : M (Nat × Option (List UInt8))) s = (.ok (len, mac), s') ∧ PtrLogOK s' := by
   simp only [M.bind_apply, M.modify_apply]
   have w3 : WInv { s with tsig := none, available := s.available + ts.reservedLen } :=
     winv_raise hw ts.reservedLen hroom none
   have hrl := tsigRdata_length ts.rr (tsigAlgName ts.mode) (mac.getD []) ht6 hs6
-  obtain ⟨s', h1, _, _, _, _⟩ := addRr_nameless_ok ts.rr.keyName T_TSIG QC_ANY (ttlFrom 0)
+  obtain ⟨s', h1, _, _, _, hl'⟩ := addRr_nameless_ok ts.rr.keyName T_TSIG QC_ANY (ttlFrom 0)
     (tsigRdata ts.rr (tsigAlgName ts.mode) (mac.getD [])) _ w3 hl hkey (componentTypes_tsig _)
     (by
       show s.cursor + rrLen ts.rr.keyName _ ≤ s.available + ts.reservedLen
@@ -822,14 +822,14 @@ theorem finishTsig_tail (s : State) (hw : WInv s) (hl : PtrLogOK s) (ts : Tsig) 
       omega)
   unfold unwrap
   rw [h1]
-  exact ⟨_, _, rfl⟩
+  exact ⟨_, _, rfl, hl'⟩
 
 theorem finishTsig_spec (macFn : Tsig → List UInt8 → List UInt8) (hmac : MacLenOK macFn) (s : State)
     (hw : WInv s) (hl : PtrLogOK s) (ts : Tsig) (hts : s.tsig = some ts)
     (hok : ts.reservedLen = reservedLenOf ts.mode ts.rr ∧ ts.rr.keyName.WF ∧
       (tsigAlgName ts.mode).WF ∧ ts.rr.timeSigned.length = 6 ∧ ts.rr.serverTime.length = 6)
     (hroom : s.available + ts.reservedLen ≤ s.octets.size) :
-    ∃ r s', finishTsig macFn s.tsig s = (.ok r, s') := by
+    ∃ r s', finishTsig macFn s.tsig s = (.ok r, s') ∧ PtrLogOK s' := by
   obtain ⟨hres, hkey, _, ht6, hs6⟩ := hok
   unfold finishTsig
   rw [hts]
@@ -842,48 +842,48 @@ theorem finishTsig_spec (macFn : Tsig → List UInt8 → List UInt8) (hmac : Mac
   | request a k =>
     rw [hmode] at hm
     simp only []
-    obtain ⟨len, s', h⟩ := finishTsig_tail s hw hl ts (some (macFn ts (s.octets.extract 0 s.cursor).toList))
+    obtain ⟨len, s', h, hl'⟩ := finishTsig_tail s hw hl ts (some (macFn ts (s.octets.extract 0 s.cursor).toList))
       hkey ht6 hs6 hroom (by
         rw [hres, hmode]
         simp only [reservedLenOf, signedLen, unsignedLen, tsigAlgName, Option.getD_some] at hm ⊢
         omega)
     rw [hmode] at h
-    exact ⟨_, _, h⟩
+    exact ⟨_, _, h, hl'⟩
   | response a m k =>
     rw [hmode] at hm
     simp only []
-    obtain ⟨len, s', h⟩ := finishTsig_tail s hw hl ts (some (macFn ts (s.octets.extract 0 s.cursor).toList))
+    obtain ⟨len, s', h, hl'⟩ := finishTsig_tail s hw hl ts (some (macFn ts (s.octets.extract 0 s.cursor).toList))
       hkey ht6 hs6 hroom (by
         rw [hres, hmode]
         simp only [reservedLenOf, signedLen, unsignedLen, tsigAlgName, Option.getD_some] at hm ⊢
         omega)
     rw [hmode] at h
-    exact ⟨_, _, h⟩
+    exact ⟨_, _, h, hl'⟩
   | subsequent a m k =>
     rw [hmode] at hm
     simp only []
-    obtain ⟨len, s', h⟩ := finishTsig_tail s hw hl ts (some (macFn ts (s.octets.extract 0 s.cursor).toList))
+    obtain ⟨len, s', h, hl'⟩ := finishTsig_tail s hw hl ts (some (macFn ts (s.octets.extract 0 s.cursor).toList))
       hkey ht6 hs6 hroom (by
         rw [hres, hmode]
         simp only [reservedLenOf, signedLen, unsignedLen, tsigAlgName, Option.getD_some] at hm ⊢
         omega)
     rw [hmode] at h
-    exact ⟨_, _, h⟩
+    exact ⟨_, _, h, hl'⟩
   | unsigned n =>
     simp only []
-    obtain ⟨len, s', h⟩ := finishTsig_tail s hw hl ts none hkey ht6 hs6 hroom (by
+    obtain ⟨len, s', h, hl'⟩ := finishTsig_tail s hw hl ts none hkey ht6 hs6 hroom (by
         rw [hres, hmode]
         simp only [reservedLenOf, unsignedLen, tsigAlgName, Option.getD_none, List.length_nil]
         omega)
     rw [hmode] at h
-    exact ⟨_, _, h⟩
+    exact ⟨_, _, h, hl'⟩
 
 
 /-- **`finish` succeeds** from any state satisfying the invariant, provided the signing function
     returns a MAC that fits the reservation (the two `unwrap`s are covered by the reservations
     made by `set_edns` / `set_tsig`) -/
 theorem finishWithMac_ok (macFn : Tsig → List UInt8 → List UInt8) (hmac : MacLenOK macFn) (s : State)
-    (hI : I s) : ∃ r s', finishWithMac macFn s = (.ok r, s') := by
+    (hI : I s) : ∃ r s', finishWithMac macFn s = (.ok r, s') ∧ PtrLogOK s' := by
   unfold finishWithMac
   simp only [M.bind_apply, M.gets_apply]
   obtain ⟨o, hc, hIA, hosz⟩ := finishCounts_spec s.qdcount s.ancount s.nscount s.arcount s hI
@@ -913,7 +913,7 @@ theorem finishWithMac_ok (macFn : Tsig → List UInt8 → List UInt8) (hmac : Ma
   | none =>
     unfold finishTsig
     simp only [M.bind_apply, M.gets_apply, M.pure_apply]
-    exact ⟨_, _, rfl⟩
+    exact ⟨_, _, rfl, hl1⟩
   | some ts =>
     have := finishTsig_spec macFn hmac s1 hw1 hl1 ts (by rw [hts1', hts]) (hI.tsig ts hts)
       (by rw [hts] at hroom1; exact hroom1)
@@ -922,7 +922,7 @@ theorem finishWithMac_ok (macFn : Tsig → List UInt8 → List UInt8) (hmac : Ma
 
 theorem finish_ok (macFn : Tsig → List UInt8 → List UInt8) (hmac : MacLenOK macFn) (s : State)
     (hI : I s) : ∃ m mac, finish s macFn = .ok (m, mac) := by
-  obtain ⟨r, s', h⟩ := finishWithMac_ok macFn hmac s hI
+  obtain ⟨r, s', h, _⟩ := finishWithMac_ok macFn hmac s hI
   unfold finish
   rw [h]
   exact ⟨_, _, rfl⟩
